@@ -238,7 +238,18 @@ theorem rename_const (N : Q) (name : String) :
       { headerGraph with demes := [constDeme name "" N 0 0], index := [(name, 0)] } := by
   simp [renameDemes, constGraph1, constDeme, Renaming.apply, Renaming.get?, rebuildIndex, List.zipIdx, headerGraph, emptyGraph]
 
+/-- the validation at the end of `rename_demes` accepts the one new name iff it is an identifier -/
+theorem renameChecked_const (N : Q) (name : String) (hid : isIdentifier name = true) :
+    renameDemesChecked (constGraph1 N) [("deme1", name)] =
+      .ok { headerGraph with demes := [constDeme name "" N 0 0], index := [(name, 0)] } := by
+  have hok : renameNamesOk (constGraph1 N) [("deme1", name)] = true := by
+    simp [renameNamesOk, constGraph1, constDeme, Renaming.apply, Renaming.get?, hid]
+  unfold renameDemesChecked
+  rw [hok, rename_const]
+  rfl
+
 theorem fromMs_const (tokens : List String) (args : Args) (N N0 : Q) (name : String) (hN : 0 < N)
+    (hid : isIdentifier name = true)
     (hparse : parseKnownArgs tokens = .ok args) (hdoc : buildDoc args N0 = .ok (constDoc N)) :
     fromMs tokens N0 (some [name]) =
       .ok { graph := { headerGraph with demes := [constDeme name "" N 0 0], index := [(name, 0)] },
@@ -253,7 +264,8 @@ theorem fromMs_const (tokens : List String) (args : Args) (N N0 : Q) (name : Str
     simp [List.range, List.range.loop, demeName0]
   have h4 : (constGraph1 N).demes.map (·.name) = ["deme1"] := rfl
   simp only [h1, h2, h3, h4, List.length_cons, List.length_nil, List.map_cons, List.map_nil, List.foldr_cons, List.foldr_nil,
-    insertStr, ne_eq, not_true_eq_false, if_false, rename_const, Nat.zero_add, Asdict.pure_eq_ok]
+    insertStr, ne_eq, not_true_eq_false, if_false, renameChecked_const N name hid, Nat.zero_add, Asdict.bind_ok,
+    Asdict.pure_eq_ok]
 
 theorem parse_nil : parseKnownArgs [] = .ok {} := rfl
 
@@ -263,7 +275,7 @@ returns a graph in generations whose only deme has that name, lives from the inf
 the present and has the one constant-size epoch of size `N` (exactly: `N/N0·N0 = N` in the
 Model's rationals; no symbolic size is left, `table = []`). -/
 theorem toMs_fromMs_structure (c : NumCodec) (sa : Growth → String) (g : Graph) (name desc : String)
-    (N sr cr N0 : Q) (hN : 0 < N) (hN0 : 0 < N0)
+    (N sr cr N0 : Q) (hN : 0 < N) (hN0 : 0 < N0) (hid : isIdentifier name = true)
     (hd : g.demes = [constDeme name desc N sr cr]) (hm : g.migrations = []) (hp : g.pulses = [])
     (hc : N0 ≠ N → c.ok (.fin (N / N0))) :
     ∃ toks mg, toMs g N0 none = .ok toks ∧ fromMs (renderG c sa toks) N0 (some [name]) = .ok mg ∧
@@ -274,7 +286,7 @@ theorem toMs_fromMs_structure (c : NumCodec) (sa : Growth → String) (g : Graph
   by_cases h : N0 = N
   · rw [if_pos h] at htoms
     subst h
-    refine ⟨_, _, htoms, fromMs_const _ {} N0 N0 name hN0 parse_nil (buildDoc_empty N0 hN0), rfl, rfl, rfl, rfl, rfl, rfl⟩
+    refine ⟨_, _, htoms, fromMs_const _ {} N0 N0 name hN0 hid parse_nil (buildDoc_empty N0 hN0), rfl, rfl, rfl, rfl, rfl, rfl⟩
   · rw [if_neg h] at htoms
     have hok := hc h
     have hpos : 0 < N / N0 := div_pos hN hN0
@@ -288,7 +300,7 @@ theorem toMs_fromMs_structure (c : NumCodec) (sa : Growth → String) (g : Graph
       exact parse_single "-n" _ (.fixed 2) _ rfl rfl rfl
         (mem2 (classify_toString_int 1) (classify_num c _ hok))
         (act_n _ _ 1 _ (cInt_toString 1) (cFloat_exact c _ hok (vNonNeg_lt _ hx)) (by decide) hx)
-    refine ⟨_, _, htoms, fromMs_const _ _ N N0 name hN hparse (buildDoc_n N N0 hN0 h), rfl, rfl, rfl, rfl, rfl, rfl⟩
+    refine ⟨_, _, htoms, fromMs_const _ _ N N0 name hN hid hparse (buildDoc_n N N0 hN0 h), rfl, rfl, rfl, rfl, rfl, rfl⟩
 
 
 end Demes.Proofs.MsPrint
